@@ -9,15 +9,15 @@ TRUST = ("Python/numpy semantics; the harness's own oracle code in /verif/mc; th
 
 CHECKS = {
     "C12": dict(engine="lp-metamorphic", design_ref="3/C12",
-        technique="every single perturbation from a fixed menu applied to every captured LP instance (first and last people-maximising round of each enumerated run), each solved by the real Optimizer.optimize_to_humans; metamorphic laws as oracle",
+        technique="every single perturbation from a fixed menu applied to every captured LP instance (first and last people-maximising round of each enumerated run), each solved by the real Optimizer.optimize_to_humans; metamorphic laws as oracle; the same menu on the full product of tiny instances built on the real Optimizer (industrial foods below and far above the human intake cap, biofuel charge below and above feed charge)",
         text="For each captured instance: every supply kind x month bucket +5 % of monthly need, each retail waste -5 points, feed/biofuel charge +1 % per bucket, common scale x0.5/x3: percent fed must not decrease / not increase / stay equal (1e-5 relative). Exact mathematical consequences of a correct formulation, checked on every enumerated instance rather than one sweep.",
         note=TRUST + "; an infeasible perturbed programme has no value and is counted, not judged"),
     "C14": dict(engine="histories", design_ref="3/C14",
-        technique="sequences(d): every ordered sequence (d<=2 quick, d<=3 thorough, repeats allowed) over a pool of 8 runs differing in every process-global the code touches (two of them the same country with numeric overrides), each history in one fresh process; every subset (size <=2 quick, all thorough) of 5 countries in ONE multi-country call sharing one option dictionary; differential oracle: bit-for-bit equality with the run alone / the single-country call",
+        technique="sequences(d): every ordered sequence (d<=2 quick, d<=3 thorough, repeats allowed) over a pool of 8 runs differing in every process-global the code touches (two of them the same country with numeric overrides), each history in one fresh process; every subset (size <=2 quick, all thorough) of 5 countries in ONE multi-country call sharing one option dictionary; differential oracle: bit-for-bit equality with the run alone / the single-country call; deviation histories: the base run of a country after the same country was run with each single-family option deviation (52), one fresh process each",
         text="Result digest (headline, every monthly series, herd dictionaries) of each run at the end of every history equals the digest of the same run alone in a fresh process, also repeated and under other PYTHONHASHSEED values; caller's option dictionaries unmodified; process-global settings fingerprinted after each run.",
         note=TRUST + "; results are bit-for-bit reproducible on the unchanged tree (measured)"),
     "C15": dict(engine="aggregate", design_ref="3/C15",
-        technique="full product of selection patterns (absent / named / '!'-named per country over a 4-country universe: 81 lists) x 5 fraction tables (two with countries whose run reports failure) through the real run_model_no_trade with the per-country step replaced by a stand-in; conformance of the stand-in on real unstubbed runs",
+        technique="full product of selection patterns (absent / named / '!'-named per country over a 4-country universe: 81 lists) x 5 fraction tables (two with countries whose run reports failure) through the real run_model_no_trade with the per-country step replaced by a stand-in; conformance of the stand-in on real unstubbed runs; every stubbed selection is run twice with the same list object",
         text="Aggregate == sum(pop x min(1,f)) / sum(pop) over exactly the selected rows, within [0,1]; exclusion lists run all other rows, inclusion and mixed lists only the named ones; every selected country once in the results.",
         note=TRUST + "; the stand-in replaces only run_optimizer_for_country"),
     "C17": dict(engine="imports", design_ref="3/C17",
@@ -41,11 +41,11 @@ CHECKS = {
         text="Headline == worst month of the summed per-food series; every series == allocation x unit factor; headline within 0.01 % of the first-stage optimum (tie-break solves never degrade it); saved table == returned numbers; crop split adds up.",
         note=TRUST + "; 1e-6 percentage points absolute allowance on a near-zero optimum (solver primal tolerance)"),
     "C05": dict(engine="pipeline", design_ref="3/C05",
-        technique="same enumeration; herd simulation objects captured at the CalculateFeedAndMeat seam and compared month by month with the optimiser inputs of each round",
+        technique="same enumeration; herd simulation objects captured at the CalculateFeedAndMeat seam and compared month by month with the optimiser inputs of each round; the meat eaten in each solved people-maximising programme judged against the herd simulation itself (month by month without storage, cumulatively with it)",
         text="Meat and milk energy handed to each round's optimiser are recomputed from the herd run of that round (slaughter counts x class yields x waste; milking herd x yield x wastes); final-round feed charge >= feed the final herd run ate; grass used <= grass given; the no-feed round ran its herds on no feed.",
         note=TRUST + "; per-kg energy and default carcass weights are the documented constants of MeatAndDairy"),
     "C16": dict(engine="pipeline", design_ref="3/C16",
-        technique="the enumerated grid itself (presets x all countries x single deviations): completion, assertions, banners, finite non-negative headline",
+        technique="the enumerated grid itself (presets x all countries x single deviations): completion, assertions, banners, finite non-negative headline; the quick plan appends fixed representatives of rare controller paths found by the thorough grid (mc/rare_paths.json)",
         text="Every run of the enumerated grid must complete with all built-in validation passing and no validation banner printed; failures are genuine by construction and are listed explicitly in known_findings.json.",
         note=TRUST),
     "C18": dict(
@@ -56,7 +56,7 @@ CHECKS = {
         note=TRUST + "; stand-in round-1 result object exposes exactly the attributes the helper reads"),
     "C06": dict(
         engine="herd", design_ref="3/C06",
-        technique="explicit-state exploration of the real monthly herd loop: product of constant feed/grass levels and deviation-bounded (k<=1 quick, k<=2 thorough) per-month environment answers; ledger invariant on every (species, month) state",
+        technique="explicit-state exploration of the real monthly herd loop: product of constant feed/grass levels and deviation-bounded (k<=1 quick, k<=2 thorough) per-month environment answers; ledger invariant on every (species, month) state; quick tier: every country's herd table (12 in depth, all others on a 12-month menu)",
         text="Bounded exhaustive over country x 3 breeding strategies x feeding-order mode x monthly feed/grass answers (5x5 constant series; every <=k-month departure from all-ample and from all-zero over 14 months with a 3x3 menu). Every (species, month) state is checked against the head-count ledger, non-negativity, milk->meat transfer identity, labour-hour capacity, availability and target floor. Right level: the defects live in the interaction of flows over months, which only running the loop on many environment histories exposes.",
         note=TRUST + "; list alignment of the returned herd lists (stated in the evidence assumptions)"),
     "C07": dict(
@@ -66,7 +66,7 @@ CHECKS = {
         note=TRUST + "; per-head energy requirement and digestion type read from the species objects"),
     "C08": dict(
         engine="supplies", design_ref="3/C08",
-        technique="exhaustive enumeration of country x single supply-option deviation x horizon through the real first-round parameter computation, plus full products of generated constants through each supply class; month-by-month comparison with a reference model written from the documentation; homogeneity metamorphic check",
+        technique="exhaustive enumeration of country x single supply-option deviation x horizon through the real first-round parameter computation, plus full products of generated constants through each supply class; month-by-month comparison with a reference model written from the documentation; homogeneity metamorphic check; option-level differential through the real dispatcher: series(production multiplier k) == k x series(without)",
         text="Every series handed to the optimiser (outdoor/greenhouse crops, fish, grass, feed and biofuel demand, SCP, cellulosic sugar, seaweed area and growth, initial stock) is recomputed from the documented formula and compared at 1e-9 for every month of every enumerated configuration; length, finiteness, sign and exact scaling are checked too.",
         note=TRUST + "; the constants dictionary produced by the option dispatcher is treated as input (C13 checks the dispatcher)"),
     "C09": dict(
@@ -76,7 +76,7 @@ CHECKS = {
         note=TRUST),
     "C10": dict(
         engine="units", design_ref="3/C10",
-        technique="full product over every source unit triple x every target base triple on the real Food.in_units, against an independently derived factor table and the algebraic laws (round trip, path independence, form/shape preservation, anchors)",
+        technique="full product over every source unit triple x every target base triple on the real Food.in_units, against an independently derived factor table and the algebraic laws (round trip, path independence, form/shape preservation, anchors); every ordered sequence of 2 (thorough 3) assignments of the nutrition settings from a 2x2x2x2 menu on the one shared conversions object, all 180 base conversions + anchors after every assignment",
         text="Exhaustive over the 15 x 18 x 18 unit names (form-consistent triples; mixed-form triples of the default bases), scalar and 1-/3-month series, all 180 target base triples, 1 (quick) or 4 (thorough) population/requirement settings: every conversion factor is compared with the factor that follows from the meaning of the unit names; round trips, conversion through an intermediate unit, label form and shape, and the three anchor identities are checked.",
         note=TRUST + "; 30-day month and 4e6 kcal per dry caloric ton are documented constants"),
     "C11": dict(
